@@ -296,6 +296,8 @@ func (o *Omni) observe(p *Party, r *CallResult) {
 			// receiver may accept it; the shadow follows the tolerant reading
 			if d, _, ok := parseDataLenient(r.In); ok {
 				out, err = sp.ReceiveParsed(d)
+			} else if m, ok := parseAKELenient(r.In); ok {
+				out, err = sp.ReceiveParsed(m)
 			} else {
 				out, err = sp.Receive(r.In)
 			}
